@@ -175,10 +175,16 @@ func (r *Remote) receive(ctx context.Context, ID json.RawMessage) (*Message, err
 
 // Call handles sending an RPC and receiving the corresponding response synchronously.
 func (r *Remote) Call(ctx context.Context, result interface{}, method string, params ...interface{}) error {
+	// The fallback Client is created once, under the lock: calls may run
+	// concurrently, and two of them creating their own would both number
+	// their requests from 1.
+	r.mu.Lock()
 	if r.Client == nil {
 		r.Client = &Client{}
 	}
-	req, err := r.Client.Request(method, params...)
+	client := r.Client
+	r.mu.Unlock()
+	req, err := client.Request(method, params...)
 	if err != nil {
 		return err
 	}
